@@ -45,6 +45,16 @@ def main():
                     hplan.append(dict(fam=fam, impl=impl, kind=kind, emb=emb, leaf=lf, internal=it, nkeys=nk,
                                       ntraces=4 if quick else 40, length=60 if quick else 200,
                                       seed=ck.seed * 1000 + len(hplan), structure=False))
+    # the same with keys and values offered as instances of subclasses of int / float / bytes (bool for 0 and 1):
+    # numbers and strings of the family like any other
+    for fam in (['II', 'IF', 'LF', 'fs', 'UU'] if quick else [f for f in embed.FAMILIES if f != 'OO']):
+        for impl in ('c', 'py'):
+            for kind in ('BTree', 'Bucket', 'TreeSet', 'Set'):
+                if fam[1] in 'Fs' and kind in ('TreeSet', 'Set') and fam[0] == 'O':
+                    continue
+                hplan.append(dict(fam=fam, impl=impl, kind=kind, emb='ext' if len(hplan) % 2 else 'mid', leaf=2, internal=2, nkeys=12,
+                                  ntraces=2 if quick else 20, length=50 if quick else 150, subargs=True,
+                                  seed=ck.seed * 1000 + 400 + len(hplan), structure=False))
     tracecheck.run_histories(ck, hplan, structure_judge=False)
     ck.assumptions += ['keys of one container are mutually comparable',
                        'model keys/values are embedded order-preservingly into each family (harness/embed.py)',
